@@ -121,6 +121,10 @@ func (r *reader) Consume(offset, maxCount int64) (int64, []message.Message, erro
 	if err != nil {
 		return OffsetInvalid, nil, err
 	}
+	if len(msgs) == 0 {
+		// the index points at a message, but the log ends before it: it was cut short
+		return OffsetInvalid, nil, fmt.Errorf("%w: no message at indexed position %d", message.ErrCorrupted, position)
+	}
 	return msgs[len(msgs)-1].Offset + 1, msgs, nil
 }
 
